@@ -11,7 +11,7 @@ CHECKS = {
  'C01': ('exploration',
          'bounded-exhaustive enumeration of memory images x environment answers on the real engines vs a reference machine',
          'Every image over a symbolic word alphabet (all address classes relative to the op, the IO cells, segment ends, '
-         'top of the address space) for several segment layouts (incl. several lazily-zero segments listed in descending address order, chains through 33..131 scattered pages, the repository's catalog programs), every 0/1/EOF input behaviour within the read bound, on '
+         'top of the address space) for several segment layouts (incl. several lazily-zero segments listed in descending address order, chains through 33..131 scattered pages, the catalog programs of the repository), every 0/1/EOF input behaviour within the read bound, on '
          'featured(+trace)/fast/native with and without the last-ops ring at w=8/16/32/64; compared op by op with the '
          'reference machine (ip/flip/jump trace, IO calls, cause, op count, fault address). A coverage statement over a '
          'small scope, which is where per-op boundary bugs live.',
@@ -32,7 +32,7 @@ CHECKS = {
          'explicit-state search over the live device objects (deep-copied states, every method as a transition) vs a bit-packing / polling-protocol model',
          'Breadth-first search from every input of length <= 2 over a 10-byte alphabet, all sequences of read / write0 / write1 / '
          'get_output / get_output(allow_incomplete) up to depth 10 (12 thorough) on FixedIO and StandardIO (stdin/stdout replaced), '
-         'states de-duplicated by the full attribute dictionary; plus all 2^17-1 written bit strings of length <= 16, all texts of <= 6 bytes that can spell escape sequences (StandardIO echo), the keyboard device's output side, all 65 793 '
+         'states de-duplicated by the full attribute dictionary; plus all 2^17-1 written bit strings of length <= 16, all texts of <= 6 bytes that can spell escape sequences (StandardIO echo), the output side of the keyboard device, all 65 793 '
          'inputs of length <= 2 read to EOF and beyond, all keyboard event scripts of <= 3 events over 32 event kinds (4-event '
          'scripts in thorough) x 40 reads via both constructors, and BrokenIO call sequences.',
          'A device state is its attribute dictionary (equal attributes, equal futures). Same-tic keyboard events are expected in script order.',
